@@ -6,6 +6,7 @@ import P2PVerif.Driver.Key
 import P2PVerif.Driver.Addr
 import P2PVerif.Driver.Frag
 import P2PVerif.Driver.Ke
+import P2PVerif.Driver.KeT
 import P2PVerif.Driver.Hub
 import P2PVerif.Driver.Stack
 open P2PVerif.Driver
@@ -18,6 +19,7 @@ def streams : List (String × Stream) := [
   ("addr", addrStream),
   ("frag", fragStream),
   ("ke", keStream),
+  ("ket", ketStream),
   ("hub", hubStream),
   ("stack", stackStream),
   ("replay", replayStream)
